@@ -52,6 +52,7 @@ def kindOfBase (name : String) : Option Kind :=
   | "delay" => some Kinds.C20.delayKind
   | "throttle" => some Kinds.C20.throttleKind
   | "throttlerace" => some Kinds.C20.throttleRaceKind
+  | "throttlelate" => some Kinds.C20.throttleLateKind
   | "after" => some Kinds.Funcs.afterKind
   | "before" => some Kinds.Funcs.beforeKind
   | "once" => some Kinds.Funcs.onceKind
